@@ -52,7 +52,7 @@ def tla_val(v):
     raise ValueError(v)
 
 
-def write_mc(dirpath, name, conf, consts, invariants, spec="SpecU", export=True, props=(), deadlock=False, base="Mu", extra_defs=""):
+def write_mc(dirpath, name, conf, consts, invariants, spec="SpecU", export=True, props=(), deadlock=False, base="Mu", extra_defs="", extra_cfg=""):
     """conf: dict(progs=[...], conds=[...], NV, MaxNow, Binary, K, SB, DbgFixed, Loopers)"""
     n = len(conf["progs"])
     conds = conf.get("conds") or [dict(f=1, v=1, eq=False, cell=1)]
@@ -71,7 +71,7 @@ def write_mc(dirpath, name, conf, consts, invariants, spec="SpecU", export=True,
         f.write("SPECIFICATION %s\nCONSTANTS\n" % spec)
         f.write("  N = %d\n  Prog <- MCProg\n  Conds <- MCConds\n  LTW <- MCLTW\n  LTR <- MCLTR\n  Loopers <- MCLoopers\n" % n)
         f.write("  NV = %d\n  MaxNow = %d\n  Binary = %s\n  K = %d\n  SB = %d\n  DbgFixed = %s\n  CvFix = %s\n" % (
-            conf.get("NV", 2), conf.get("MaxNow", 0), tla_val(bool(conf.get("Binary", False))), k, conf.get("SB", k + 4),
+            conf.get("NV", 2), conf.get("MaxNow", max([o["dl"] for p in conf["progs"] for o in p] + [0])), tla_val(bool(conf.get("Binary", False))), k, conf.get("SB", k + 4),
             tla_val(bool(conf.get("DbgFixed", consts.get("DbgFixed", True)))), tla_val(bool(conf.get("CvFix", consts.get("CvFix", True))))))
         for c in ("WLOCK", "SPIN", "WAITING", "DESIG", "CONDB", "WRW", "LONGW", "ALLF", "RLOCK", "WZLO", "RZLO"):
             f.write("  %s = %d\n" % (c, consts[c]))
@@ -84,6 +84,7 @@ def write_mc(dirpath, name, conf, consts, invariants, spec="SpecU", export=True,
         if export:
             f.write("CONSTRAINT InitPrint\nACTION_CONSTRAINT Edge\n")
         f.write("CHECK_DEADLOCK %s\n" % ("TRUE" if deadlock else "FALSE"))
+        f.write(extra_cfg)
     return os.path.join(dirpath, mod + ".tla"), os.path.join(dirpath, mod + ".cfg")
 
 
